@@ -98,7 +98,10 @@ def run(case):
         if c["input"] == "file":
             oracle.mrc_write(name, np.ascontiguousarray(imgs.astype(np.float32).transpose(2, 1, 0)))
             return name
-        return np.ascontiguousarray(imgs.transpose(2, 1, 0)) if c["in_order"] == "xyz" else imgs.copy()
+        if c["in_order"] == "xyz":
+            # both memory layouts a caller may hold: a C-ordered x,y,z array, or the transposed view of a z,y,x array
+            return np.ascontiguousarray(imgs.transpose(2, 1, 0)) if int(c.get("seed", 0)) % 2 else imgs.copy().transpose(2, 1, 0)
+        return imgs.copy()
 
     dose_arrays = {}
 
@@ -117,9 +120,13 @@ def run(case):
 
     def filt(imgs, ds, label="dose_filter", name="in.mrc"):
         inp = as_input(imgs, name)
+        inp0 = inp.copy() if isinstance(inp, np.ndarray) else None
         ok, r = call(out, label, lambda: tiltstack.dose_filter(inp, px, dose_input(ds), input_order=c["in_order"], output_order=c["out_order"]))
         if not ok:
             return None
+        if inp0 is not None:
+            out.label("array_input:" + ("c_ordered" if inp.flags.c_contiguous else "other_layout"))
+            out.check(np.array_equal(inp, inp0), "input_stack_modified", label)
         r = np.asarray(r)
         r = r.transpose(2, 1, 0) if c["out_order"] == "xyz" else r
         if not out.check(r.shape == imgs.shape, "shape", f"{r.shape} vs {imgs.shape}"):
